@@ -62,8 +62,8 @@ CHECKS = {
             "compared exactly, pair by pair and as a conjunction; every assorter value is range-checked; "
             "find_margin_from_tally is compared with 2*mean-1 for the oracle tally and both Contest.tally modes. "
             "Ties, k-winner, approval, exact-threshold and all-invalid strata are forced.",
-            "trusted: numpy; shares with f and 1/(2f) dyadic at the threshold, other shares only away from it; ballot "
-            "candidates are a subset of the contest's candidates",
+            "trusted: numpy; shares with f and 1/(2f) dyadic at the threshold, other shares only away from it; write-in "
+            "marks only on ballots with no mark for a listed candidate",
             "DESIGN.md section 4, C02"),
     "C18": ("runtime contract on CVR.merge_cvrs (pre-call deep snapshot, post-call comparison with a reference fold) plus a reference parser for the RAIRE readers",
             "Exploration by runtime monitoring: the contract on the real merge_cvrs snapshots every input record before "
@@ -185,6 +185,30 @@ CHECKS = {
             "DESIGN.md section 4, C16"),
 }
 
+# strata and monitors added after the rounds of independently seeded changes (DESIGN.md 7.4), appended to the level text
+WIDENED = {
+    "C01": "Also: cells evaluated with a look after every draw on one re-used buffer; u < 1; narrow integer dtypes; re-used test objects.",
+    "C02": "Also: write-in-only ballots, card counts revised after the assertions were made, constructors called twice, the style-on mean re-taken after all cards were scored.",
+    "C03": "Also: CVRs revised in place and margins recomputed on the same objects; the population under audit compared with a reference (falsy pool labels included).",
+    "C04": "Also: Contest objects re-used across runs, ballot mappings stored in any order, rank numbers with holes, integer contest identifiers.",
+    "C05": "Also: the growth factor on draw k+1 must be affine in that draw (decides tests whose alternative is not exposed); long samples beyond the double range.",
+    "C06": "Also: stale test bounds and margins revised after they were set; the bound held when each test method is entered.",
+    "C07": "Also: second, third and continued draws on the same Contest objects (sizes lowered, zero, raised), re-assigned sample numbers.",
+    "C08": "Also: a second call with a revised bound, phantom CVRs carrying votes, pooled phantoms against reference batch means, an audit-wide max_cards differing from the stratum bound.",
+    "C09": "Also: stale bounds in the test objects before the call, tests configured with random_order=False, IRV parameter injections.",
+    "C10": "Also: histories after a dry run with other sample numbers, fine-grained escalation of noisy polling audits, histories of random_order=False tests (kept confirmations).",
+    "C11": "Also: u < 1, narrow integer dtypes (uint8, int8, int32, bool), objects built with another u or warmed up with another N or sample, long samples (600-2500 draws, u up to 10).",
+    "C12": "Also: strict final-sample rule at the last index, non-dyadic boundary neighbourhoods, early-wins-then-zeros census samples, long samples with saturating reference products.",
+    "C13": "Also: u < 1 for every estimator and bet, narrow integer dtypes, samples a hair around t.",
+    "C14": "Also: ballots on one long-lived record (assigned / merged), storage order of the votes dict varied, non-ASCII names in reader files, integer contest identifiers.",
+    "C15": "Also: re-used Contest objects, storage order, rank holes, hints right and wrong.",
+    "C16": "Also: ONEAudit audit- and contest-level estimates, the same polling assertion asked again after its tally was revised, super-majority comparison populations.",
+    "C17": "Also: manifests with offset / permuted row labels, a second lookup in the same prepared manifest, zero-padded card numbers in CVR identifiers.",
+    "C18": "Also: falsy tally-pool labels, CSV-quoted names, 10-25 contests per file, votes objects shared between records (and the constructor's default object probed).",
+    "C19": "Also: image-mask prefixes, adjudicated blocks in the other layout than their session's original block, blocks covering proper subsets of contests.",
+    "C20": "Also: ambiguous (substring) identifiers, multi-contest logs, duplicates differing in the proved flag, the rendered tag of every pruned node parsed and compared.",
+}
+
 PENDING_REASON = ("check designed in DESIGN.md section 4 but not yet built in this session; "
                   "not claimed until its monitor has been run on the unchanged tree")
 
@@ -196,6 +220,7 @@ def main():
         pid = p["id"]
         if pid in CHECKS and os.path.exists(os.path.join(HERE, "checks", pid.lower() + ".py")):
             tech, text, note, ref = CHECKS[pid]
+            text = text + " " + WIDENED.get(pid, "")
             checks.append({
                 "property_id": pid,
                 "quick_cmd": f"./check {pid} --tier quick",
